@@ -127,6 +127,9 @@ class Plan:
             for f in ("folder_name",):
                 if f in self.reg[ident].ConfigSchema.model_fields:
                     opts[f] = scope
+        return self.action_opts(ident, opts)
+
+    def action_opts(self, ident: str, opts: Dict) -> Optional[int]:
         key = json.dumps([ident, opts], sort_keys=True, default=str)
         if key not in self._index:
             try:
@@ -237,6 +240,53 @@ class Plan:
             if len(self.segments) - n0 >= triple_cap:
                 break
             self._add("triple", node, group, scope, steps, seen)
+
+    def build_variants(self, mode: str):
+        """Group "every": ONE well-formed instance of EVERY registered action type (on the node C05's generator drew, and on the first
+        Computer and the first Server of the scenario).  Group "optional": the same instances with EACH field that the action's schema
+        declares optional omitted in turn, and with all of them omitted.  An application the request addresses
+        ([..., 'application', X, ...]) that the node does not have is installed by a preceding step."""
+        kinds: Dict[str, str] = {}
+        for n in sorted(self.vocab["nodes"]):
+            kinds.setdefault(self.vocab["nodes"][n]["kind"], n)
+        hosts = [kinds[k] for k in ("Computer", "Server") if k in kinds]
+        for ident, cls in sorted(self.reg.items()):
+            fields = cls.ConfigSchema.model_fields
+            tpl = _template(ident, self.reg, self.sim, self.vocab, self._tpl)
+            nf = next((f for f in NODE_FIELDS if f in fields), None)
+            nodes = [tpl.get(nf)] if nf else [None]
+            if nf in ("node_name", "source_node"):
+                nodes += [h for h in hosts if h not in nodes]
+            for node in nodes:
+                base = copy.deepcopy(tpl)
+                if nf and node is not None:
+                    base[nf] = node
+                variants = [("as-generated", base)]
+                if mode == "optional":
+                    opt = [f for f in base if f in fields and not fields[f].is_required() and f != nf]
+                    variants = [(f"without:{f}", {k: v for k, v in base.items() if k != f}) for f in opt]
+                    if len(opt) > 1:
+                        variants.append(("without-all-optional", {k: v for k, v in base.items() if k not in opt}))
+                for label, opts in variants:
+                    try:
+                        req = cls.form_request(cls.ConfigSchema(type=ident, **opts))
+                    except Exception:
+                        self.stats["skipped:options rejected by the action's schema"] = self.stats.get("skipped:options rejected by the action's schema", 0) + 1
+                        continue
+                    pre: List[int] = []
+                    if isinstance(req, list) and "application" in req[:-1] and len(req) > 3 and req[:2] == ["network", "node"]:
+                        host, app = req[2], req[req.index("application") + 1]
+                        inst = self.vocab["nodes"].get(host, {}).get("applications", [])
+                        if isinstance(app, str) and app in _installable() and app not in inst and ident != "node-application-install":
+                            a0 = self.action("node-application-install", host, None, app)
+                            if a0 is not None:
+                                pre.append(a0)
+                    a = self.action_opts(ident, opts)
+                    if a is None:
+                        continue
+                    self.segments.append({"kind": mode, "node": str(node), "family": ident, "scope": label, "steps": [(ident, label)], "ops": pre + [a],
+                                          "uses": {(str(node), "variant", None, None)}})
+                    self.stats[f"segments:{mode}"] = self.stats.get(f"segments:{mode}", 0) + 1
 
     def cfg(self) -> Dict:
         cfg = copy.deepcopy(self.base)
